@@ -35,6 +35,12 @@ T("C06", f"{GEN}: every model x EVERY partial/interval interpretation x every co
 T("C07", f"{GEN}: assume(d) edges for every dictionary of <=1/2 ids x every interpretation of the remaining leaves; differential + reference",
   "Every assumption dictionary inside the bound is executed on fresh objects on both sides.",
   "trusted: mc/ref.py", "4/C07")
+T("C08", f"{GEN}: reduce edges (twice) from states fixed by construction bounds and from assume-edge targets x every free interpretation",
+  "Every reduce edge inside the bound is executed; reduced, unreduced and reference values are compared on every interpretation of the free leaves.",
+  "trusted: mc/ref.py", "4/C08")
+T("C10", f"{GEN}: adversarial id/bounds grammar enumerated completely; errors() vs reference validator (soundness + completeness families)",
+  "Every model of the adversarial grammar is validated by the library and by an own-traversal reference validator that never hashes.",
+  "trusted: well_defined() in c10.py", "4/C10")
 
 
 def build():
